@@ -44,6 +44,10 @@ def configs(tier):
                 for sh in (0, 1, 4, 6):
                     out.append((2, n, f, sh, 0, "complete", -5))
     else:
+        # pool creation with a failing pthread_create: every worker count x every failing creation (but the first: nothing to join then)
+        for w in (2, 3, 4):
+            for f in range(1, w):
+                out.append((w, 1, f, 7, 0, "complete"))
         for w in (1, 2, 3):
             for n in (1, 2, 3):
                 for f in [-1] + list(range(n)):
